@@ -255,22 +255,50 @@ def tag_of(kind, vname):
     return kind
 
 
+# Every second file set of a format (the first one in particular) has the MAXIMAL record structure: three quantities per
+# record with two or three factors and sources each, so that a cut can fall behind the complete data of an earlier quantity /
+# factor / source of the record being written (seed7: a partial record accepted for the first quantities only).
+RICH = ([2, 1, 3], [2, 3, 1])       # nfct, nsrc per quantity
+
+
+def _structure(set_id):
+    return RICH if set_id % 2 == 0 else None
+
+
 BINARY = {
-    'rwms-1.4': (lambda rng, tier: R.RwmsSet(rng, tier, small=True, version='1.4'), variants_rwms),
-    'rwms-1.6': (lambda rng, tier: R.RwmsSet(rng, tier, small=True, version='1.6'), variants_rwms),
-    'rwms-2.0': (lambda rng, tier: R.RwmsSet(rng, tier, small=True, version='2.0'), variants_rwms),
-    'ms.dat': (lambda rng, tier: R.MsdatSet(rng, tier, small=True), variants_msdat),
-    'gfms': (lambda rng, tier: R.GfmsSet(rng, tier, small=True, coupling=True), variants_gfms),
-    'ms5_xsf': (lambda rng, tier: R.Ms5Set(rng, tier, small=True), variants_ms5),
-    'pbp': (lambda rng, tier: R.PbpSet(rng, tier, small=True), variants_pbp),
+    'rwms-1.4': (lambda rng, tier, sid: R.RwmsSet(rng, tier, small=True, version='1.4', structure=_structure(sid)), variants_rwms),
+    'rwms-1.6': (lambda rng, tier, sid: R.RwmsSet(rng, tier, small=True, version='1.6', structure=_structure(sid)), variants_rwms),
+    'rwms-2.0': (lambda rng, tier, sid: R.RwmsSet(rng, tier, small=True, version='2.0', structure=_structure(sid)), variants_rwms),
+    'ms.dat': (lambda rng, tier, sid: R.MsdatSet(rng, tier, small=True), variants_msdat),          # 3 blocks x 3 flow times x 3 time slices
+    'gfms': (lambda rng, tier, sid: R.GfmsSet(rng, tier, small=True, coupling=True), variants_gfms),   # 3 c values x 16 observables
+    'ms5_xsf': (lambda rng, tier, sid: R.Ms5Set(rng, tier, small=True), variants_ms5),                # 10 + 2 correlators
+    'pbp': (lambda rng, tier, sid: R.PbpSet(rng, tier, small=True, structure=_structure(sid)), variants_pbp),
 }
+
+
+def mixed_prefix(judge, ctx, res, e_n, e_n1):
+    """Results that are lists of observables (one per quantity): True when every entry is the n-record or the (n+1)-record
+    expectation and both occur - the partial record was taken for some quantities only."""
+    if not isinstance(res, (list, tuple)) or e_n is None or e_n1 is None or len(res) != len(e_n):
+        return False
+    kinds = set()
+    for i, o in enumerate(res):
+        if matches(lambda c, t, r_, e, w: R.compare_table(c, t, r_, e, w), ctx, o, e_n[i]):
+            kinds.add('n')
+        elif matches(lambda c, t, r_, e, w: R.compare_table(c, t, r_, e, w), ctx, o, e_n1[i]):
+            kinds.add('n+1')
+        else:
+            return False
+    return kinds == {'n', 'n+1'}
 
 
 def case_binary(ctx, kind, idx, rng):
     set_id, part = divmod(idx, PARTS)
     srng = set_rng(ctx, kind, set_id)
     make, variants_of = BINARY[kind]
-    S = make(srng, ctx.tier)
+    S = make(srng, ctx.tier, set_id)
+    if hasattr(S, 'nrw'):
+        ctx.cell(kind, 'structure', 'nrw=%d,max_nfct=%d,max_nsrc=%d' % (S.nrw, max(S.nfct), max(S.nsrc)))
     E = Enum(ctx, kind)
     with tempfile.TemporaryDirectory(prefix='vmon_C18_', dir=TMPROOT) as d:
         S.write(d, distractors=False)
@@ -338,6 +366,8 @@ def case_binary(ctx, kind, idx, rng):
                           'record_ends': [x['end'] for x in b['records']], 'reader': vname}
                 if n < ntot and matches(judge, ctx, res, exp_n(n + 1)):
                     mech = 'partial-record-accepted'
+                elif n < ntot and judge is R.judge_list and mixed_prefix(judge, ctx, res, exp_n(n), exp_n(n + 1)):
+                    mech = 'partial-record-accepted-for-some-quantities'
                 elif any(matches(judge, ctx, res, exp_n(m)) for m in range(max(0, n - 3), n)):
                     mech = 'complete-record-dropped'
                 elif exp_n(n) is None:
